@@ -174,7 +174,8 @@ def main():
                 r = json.loads(l)
             except Exception:
                 continue
-            if r.get("verdict") in want: ids[r["id"]] = r
+            v = str(r.get("verdict"))
+            if v in want or any(w.endswith("*") and v.startswith(w[:-1]) for w in want): ids[r["id"]] = r
         byid = {hashlib.sha1(("%s:%d:%s:%s" % (c["file"], c["line"], c["op"], c["after"])).encode()).hexdigest()[:10]: c for c in allc}
         picks = [byid[i] for i in ids if i in byid]
         print("retesting %d of %d mutants" % (len(picks), len(ids)), flush=True)
